@@ -198,7 +198,9 @@ def _synset(ss: dict) -> El:
                               text=d.get('text', '')))
     if ss.get('ili_definition'):
         d = ss['ili_definition']
-        el.children.append(El('ILIDefinition', _meta_attrs(d.get('meta')),
+        a = []
+        _space(a, d)
+        el.children.append(El('ILIDefinition', a + _meta_attrs(d.get('meta')),
                               text=d.get('text', '')))
     for r in ss.get('relations', []):
         el.children.append(_relation('SynsetRelation', r))
@@ -401,6 +403,19 @@ def write(resource: dict, path, style: Optional[dict] = None) -> Path:
 _NS = {}
 
 
+_XS = '{http://www.w3.org/XML/1998/namespace}space'
+
+
+def _text_of(el, d: dict) -> dict:
+    """Fill d['text'] from an element: verbatim under xml:space="preserve", else normalised."""
+    if el.attrib.get(_XS) == 'preserve':
+        d['text'] = el.text or ''
+        d['space'] = 'preserve'
+    else:
+        d['text'] = _norm(el.text)
+    return d
+
+
 def _norm(s: Optional[str]) -> str:
     return ' '.join((s or '').split())
 
@@ -446,7 +461,7 @@ def _read_rels(el: ET.Element, tag: str, v: str) -> list:
 def _read_examples(el: ET.Element, v: str) -> list:
     out = []
     for x in el.findall('Example'):
-        d: dict[str, Any] = {'text': _norm(x.text), 'meta': _read_meta(x, v)}
+        d: dict[str, Any] = _text_of(x, {'text': '', 'meta': _read_meta(x, v)})
         _copy(x, d, 'language')
         out.append(d)
     return out
@@ -531,10 +546,10 @@ def _read_synset(ss: ET.Element, v: str) -> dict:
             d['members'] = ss.attrib['members'].split()
         idef = ss.find('ILIDefinition')
         if idef is not None:
-            d['ili_definition'] = {'text': _norm(idef.text), 'meta': _read_meta(idef, v)}
+            d['ili_definition'] = _text_of(idef, {'text': '', 'meta': _read_meta(idef, v)})
     defs = []
     for df in ss.findall('Definition'):
-        dd: dict[str, Any] = {'text': _norm(df.text), 'meta': _read_meta(df, v)}
+        dd: dict[str, Any] = _text_of(df, {'text': '', 'meta': _read_meta(df, v)})
         _copy(df, dd, 'language', 'sourceSense')
         defs.append(dd)
     _setlist(d, 'definitions', defs)
